@@ -7,6 +7,7 @@ package batched
 
 import (
 	"bufio"
+	"errors"
 	"io"
 	"os"
 	"math/rand"
@@ -400,17 +401,26 @@ func ZZBatchedTwoCallers() {
 
 // zzServe (native replay only): a unix socket in front of the model store, so that the real
 // reconnect() can dial it. Under the symbolic executor net.Dial is substituted instead.
-func zzServe(root *model.MC) string {
+func zzServe(root *model.MC, late bool) string {
 	dir, err := os.MkdirTemp("", "zzverif")
 	if err != nil {
 		panic(err)
 	}
 	path := dir + "/mc.sock"
-	ln, err := net.Listen("unix", path)
-	if err != nil {
-		panic(err)
+	var ln net.Listener
+	if !late {
+		if ln, err = net.Listen("unix", path); err != nil {
+			panic(err)
+		}
 	}
 	go func() {
+		if late {
+			// the backend comes back only after the pool's first re-dial has failed
+			time.Sleep(150 * time.Millisecond)
+			if ln, err = net.Listen("unix", path); err != nil {
+				panic(err)
+			}
+		}
 		for {
 			s, err := ln.Accept()
 			if err != nil {
@@ -443,12 +453,18 @@ func ZZBatchedConnLoss() {
 		first.CutAt = []int{1, 23, 24, 26, 30}[rt.Choice("fault.cut", 5)] // inside the header, at its end, inside the body
 	}
 	sock := "fake"
+	// the backend may refuse the first re-dial (it is still down) and accept the next one
+	refused := rt.Choice("dial.refused", 2)
 	if rt.Symbolic() {
 		rt.Subst("net.Dial", func(network, address string) (net.Conn, error) {
+			if refused > 0 {
+				refused--
+				return nil, errors.New("dial unix: connection refused")
+			}
 			return zzNewPipe(root.NewConn("reconnected")), nil
 		})
 	} else {
-		sock = zzServe(root)
+		sock = zzServe(root, refused > 0)
 	}
 	bs := uint32(rt.Param("batchsize", 1))
 	c := zzConn(first, 0, bs)
@@ -532,7 +548,7 @@ func ZZBatchedConnLossTwo() {
 			return zzNewPipe(root.NewConn("reconnected")), nil
 		})
 	} else {
-		sock = zzServe(root)
+		sock = zzServe(root, false)
 	}
 	zzDeferStart = true
 	c := zzConn(first, 0, 2)
@@ -558,4 +574,23 @@ func ZZBatchedConnLossTwo() {
 	w2 := zzRun(d, probe)
 	rt.Reach("pool-serves-again")
 	zzSameOutcome("c13-after-recovery", bGet, g2, w2)
+}
+
+// ZZBatchedHold (C06): what a caller received stays its own: a value obtained through the pool
+// is unchanged after the pool has served further requests over the same connection.
+func ZZBatchedHold() {
+	nk := 2
+	pool, direct, _ := zzStores(nk)
+	h := zzHandler([]*conn{zzConn(pool, 0, 1)})
+	d := std.NewHandler(direct)
+	first := &zzCmd{kind: []int{bGet, bGetE, bGat}[rt.Choice("first", 3)], keys: [][]byte{model.Keys[0]}, opaques: []uint32{rt.U32("opaque")}, quiets: []bool{false}, ttl: 0}
+	ga := zzRun(h, first)
+	wa := zzRun(d, first)
+	// further traffic over the same pooled connection
+	for i := 0; i < 2; i++ {
+		next := &zzCmd{kind: bGet, keys: [][]byte{model.Keys[1]}, opaques: []uint32{uint32(50 + i)}, quiets: []bool{false}}
+		zzRun(h, next)
+	}
+	rt.Reach("held")
+	zzSameOutcome("c06-held-value", first.kind, ga, wa)
 }
